@@ -70,3 +70,7 @@ package contracts
 //@   trusted documented behaviour of strings.Index: -1, or the offset of an occurrence of substr in s
 //@   pure
 //@   ensures -1 <= result && (result >= 0 ==> result + len(substr) <= len(s))
+
+//@ func strconv.Atoi
+//@   trusted documented behaviour of strconv.Atoi on a string of decimal digits: a non-negative value, or an error (empty string, overflow)
+//@   ensures (result1 == nil && forall k in 0..len(s) :: s[k] >= '0' && s[k] <= '9') ==> result0 >= 0
